@@ -182,6 +182,11 @@ def rule_F3(ctx, R):
                 bad = "poison flag read %d times / not this Poisonable's flag" % len(fr)
                 break
             pois = fr[0].get("outcome")
+            acq = [e for e in p.events if e["k"] == "ACQ" or (e["k"] == "TRY" and e.get("outcome") is True)]
+            if acq and fr[0]["i"] < acq[-1]["i"]:
+                bad = ("the poison flag is sampled before the lock is acquired: a waiter that blocks while the holder panics "
+                       "gets Ok although the data was left broken")
+                break
             v = p.value
             if not (v[0] == "agg" and v[2] == "std::result::Result"):
                 bad = "does not return a Result"
@@ -417,6 +422,8 @@ def rule_V2(ctx, R):
     for f in analysed_fns(ctx):
         if f.get("unsafe") or "NON-ACQ" not in R.roles(f):
             continue
+        if not f.get("reachable"):
+            continue   # crate-private helpers are analysed inlined into their reachable callers
         ti = f.get("trait_item") or ""
         imp = ctx.F.impl_of_fn(f)
         if ti == "std::ops::Drop::drop":
@@ -454,7 +461,7 @@ def rule_V2(ctx, R):
                 break
         if not bad:
             res.ok(f["path"])
-    res.need(219, "safe non-acquiring functions")
+    res.need(201, "safe reachable non-acquiring functions")
     return res
 
 
